@@ -167,6 +167,8 @@ def sweep_payload(parent, label):
     kind, n = label
     if kind == 'r':      # reward data of every admissible length
         return [], world.K[4], 120, {'cb_data': bytes([0x78]) * n}
+    if kind == 't':      # a block whose time stamp is n seconds after (before, if negative) its parent's
+        return [], world.K[4], n, {'cb_data': b't%d' % (n % 1000)}
     raise KeyError(label)
 
 
@@ -188,9 +190,29 @@ def _sweep_worker(_):
         run_history(uni, tuple(hist), sizes, dbpath, stats, bad)
         if bad:
             break
+    # time stamps that do NOT increase along the chain (the store also holds blocks accepted below the checkpoint horizon and
+    # on the bulk-download path, where the time-stamp rule is not enforced): children older than their parents, equal stamps,
+    # a fork whose younger branch is the longer one - parents still come back first
+    if not bad:
+        uni2 = world.Universe(world.genesis_node(), sweep_payload, {'pow_ok': None})
+        a1 = (('t', 120),)
+        a2 = a1 + (('t', -50),)
+        a3 = a2 + (('t', 0),)
+        a4 = a3 + (('t', -100000),)
+        a5 = a4 + (('t', 7),)
+        b2 = a1 + (('t', -3000),)
+        b3 = b2 + (('t', 1),)
+        hist2 = (a1, a2, a3, b2, a4, b3, a5)
+        for sizes in ([7], [1, 6], [1] * 7, [3, 4]):
+            stats['runs'] += 1
+            bad2 = []
+            run_history(uni2, hist2, sizes, dbpath, stats, bad2)
+            if bad2:
+                bad += [(k, w + ' [chain with non-increasing time stamps]', h, s_) for k, w, h, s_ in bad2]
+                break
     if os.path.exists(dbpath):
         os.remove(dbpath)
-    return stats, [(k, w + ' [reward-data length sweep]', (), s) for k, w, h, s in bad[:3]], len(bad)
+    return stats, [(k, w + ('' if 'time stamps' in w else ' [reward-data length sweep]'), (), s) for k, w, h, s in bad[:3]], len(bad)
 
 
 def long_payload(parent, label):
